@@ -419,6 +419,26 @@ func c14ObjectRestThroughArrayRest(p *Prog) *RuleResult {
 	n := 0
 	for _, d := range []det{{"exprHasObjectRest", "js_parser.exprHasObjectRest"}, {"the marking scan of lowerObjectRestHelper", "js_parser.(*parser).lowerObjectRestHelper$1"}} {
 		fn := p.FindFunc(d.find)
+		if strings.HasSuffix(d.find, "$1") {
+			// the marking scan: the closure of lowerObjectRestHelper that updates a map and returns a bool
+			fn = nil
+			if top := p.FindFunc(strings.TrimSuffix(d.find, "$1")); top != nil {
+				for _, cl := range withClosures(top) {
+					if cl == top || cl.Signature.Results().Len() != 1 || cl.Signature.Results().At(0).Type().String() != "bool" {
+						continue
+					}
+					marks := false
+					eachInstr(cl, func(b *ssa.BasicBlock, in ssa.Instruction) {
+						if _, ok := in.(*ssa.MapUpdate); ok {
+							marks = true
+						}
+					})
+					if marks {
+						fn = cl
+					}
+				}
+			}
+		}
 		if !r.Anchor(d.find, fn != nil) {
 			continue
 		}
